@@ -238,6 +238,9 @@ func (vc *VC) runPass() {
 			if a.S == b.S {
 				continue
 			}
+			if len(n) > 2 && (n[:2] == "F$" || n[:2] == "G$") && !isRqlitePkg(heapPkg[n]) {
+				continue // state of library objects is never relied on across calls (every library call havocs it)
+			}
 			listed := false
 			for _, as := range c.Assigns {
 				if as != "" && len(n) > len(as) && n[len(n)-len(as)-1:] == "$"+as {
@@ -245,6 +248,9 @@ func (vc *VC) runPass() {
 				}
 				if as != "" && (n == as || len(n) > len(as) && n[:len(as)+1] == as+"$") {
 					listed = true // family pattern: "Elems" covers Elems$Int, Elems$String, ...
+				}
+				if len(as) > 1 && (as[len(as)-1] == '.' || as[len(as)-1] == '$') && len(n) > len(as)+2 && n[2:2+len(as)] == as && n[:2] == "F$" {
+					listed = true // package pattern: "snapshot.proto." covers every field of every type of that package
 				}
 			}
 			if listed {
